@@ -48,6 +48,9 @@ declarations:
   fortran_generic:
   - decl: (float v)
   - decl: (double v)
+- decl: int apply(int n, int (*fn)(int))
+- decl: int apply(double x, int (*fn)(int value))
+- decl: void visit(void (*fn)(double *v +rank(1), int n))
 - decl: enum Kind { ONE, TWO = 4 }
 - decl: class Obj
   doxygen:
